@@ -345,6 +345,12 @@ func runCheck(id, tier string) int {
 			continue
 		}
 		reported[v.Fingerprint] = true
+		if why := replayNondeterministic(&v.Replay); why != "" {
+			// the same action list must behave identically every time before a failure is believed
+			fmt.Fprintf(os.Stderr, "HARNESS-ERROR replay of %q is not deterministic: %s\n", v.Fingerprint, why)
+			harnessFail = true
+			continue
+		}
 		newViol++
 		h := sha256.Sum256([]byte(v.Fingerprint))
 		path := filepath.Join(verifDir, "replays", fmt.Sprintf("%s-%s.json", id, hex.EncodeToString(h[:6])))
@@ -412,6 +418,41 @@ func runCheck(id, tier string) int {
 		return 2
 	}
 	return 0
+}
+
+// replayNondeterministic re-executes an action-list replay three times on fresh
+// worlds and compares outcomes and final state; "" means identical.
+func replayNondeterministic(rp *Replay) string {
+	if rp.Kind != "actions" || len(rp.Genesis) == 0 {
+		return ""
+	}
+	var first string
+	for i := 0; i < 3; i++ {
+		var sb strings.Builder
+		func() {
+			defer func() {
+				if p := recover(); p != nil {
+					fmt.Fprintf(&sb, "harness panic %v", p)
+				}
+			}()
+			w, err := rp.World(KindDB)
+			if err != nil {
+				fmt.Fprintf(&sb, "world: %v", err)
+				return
+			}
+			for _, a := range rp.Actions {
+				o := w.Apply(a)
+				fmt.Fprintf(&sb, "%s|%s|%s;", o.Class(), o.Err, o.PanicVal)
+			}
+			sb.WriteString(HashBytes(w.Dump()))
+		}()
+		if i == 0 {
+			first = sb.String()
+		} else if sb.String() != first {
+			return fmt.Sprintf("run 1: %.300s / run %d: %.300s", first, i+1, sb.String())
+		}
+	}
+	return ""
 }
 
 func mergeExtra(dst map[string]any, k string, v any) {
